@@ -433,6 +433,16 @@ pub fn run(tier: Tier) -> Report {
     // sharp wedges eps*(x-px) >= |y-py| with rows scaled by up to 1e8 grafted below a non-root terminal: the LP
     // vertex of the wedge's path polytope misses the absolute 1e-8 tolerance of `contains`, the wedge is fat
     let mut wc = wedge_cases();
+    // two small factors: a predicate 2^-20 y <= b grafted onto terminals 2^-20 x (the composed coefficient is 2^-40)
+    {
+        let t20 = 2f64.powi(-20);
+        let first = TSpec::Dec(r1(&[1.0], 1000.0), vec![Some(TSpec::Leaf(r1(&[t20], 0.0))), Some(TSpec::Leaf(r1(&[-t20], t20)))]);
+        for b in [0.0, t20 * t20 * 8.0, -t20] {
+            let g = TSpec::Dec(r1(&[t20], b), vec![Some(TSpec::Leaf(r1(&[0.0], 1.0))), Some(TSpec::Leaf(r1(&[0.0], 2.0)))]);
+            wc.push(Case { init: Init::Spec(first.clone()), ops: vec![Op::Compose(GSpec::User(g.clone()), true)] });
+            wc.push(Case { init: Init::Spec(first.clone()), ops: vec![Op::Compose(GSpec::User(g), false), Op::Elim] });
+        }
+    }
     // regions millions / billions of units from the origin
     wc.extend(super::c11::far_programs(1e6));
     wc.extend(super::c11::far_programs(1e9));
